@@ -310,6 +310,9 @@ func (bc *Blockchain) handleConn(v *stratumsrv.Conn) error {
 					return err
 				}
 				nonceBin, err := hex.DecodeString(params.Nonce)
+				if err == nil && len(nonceBin) < 4 {
+					err = fmt.Errorf("invalid nonce length %d", len(nonceBin))
+				}
 				if err != nil {
 					v.WriteJSON(rpc.ResponseOut{
 						JsonRpc: "2.0",
